@@ -15,13 +15,14 @@ META = {
             "isMatched, connect queue, popFromConnQueue after the F16 repair, AddBlockResponse, timeouts, stop) for every event "
             "sequence with adversarial peers: blocks handed to the chain service have heights ancestor+1, +2, ... without gap or "
             "duplicate, each is the block the hash list names at that height, each is a child of the previous one (first: of the "
-            "ancestor); the successful stop is emitted exactly when the target block is acknowledged and every error stops the loop; "
+            "ancestor); the successful stop is emitted only when the target block is acknowledged, at most once per session, and every "
+            "error stops the loop; with no block in flight the processor never sits on a chunk it could pop; "
             "a stale AddBlockRsp of an earlier session can only stop the session. Finder: light scan returns an anchor on both chains "
             "when the remote answers truthfully, binary search returns the highest common height when the chains share exactly a prefix. "
             "Session layer: messages carrying an old sequence number are dropped and a new session can start after any stop. The "
             "unrepaired pop test is refuted by the spliced-list witness (F16). Tied to /repo on every run by a step engine (real objects, "
-            "loop body replayed per event, all messages and queues diffed with the model) and by runs of the real goroutines with a "
-            "watchdog. Deadlock-freedom of the goroutines/channels is supported by the watchdog runs only (partial).",
+            "loop body replayed per event, all messages and queues diffed with the model), by runs of the real goroutines with a "
+            "watchdog (direct predicate) whose Finder results are also compared with the Finder model. Deadlock-freedom of the goroutines/channels is supported by the watchdog runs only (partial).",
     "note": "Trusted: Coq kernel/vm_compute; engines and generators; the step engine replays the 20-line select loop body of "
             "BlockFetcher.Start (copied); hash sets handed to the BlockFetcher are consecutive ranges (HashFetcher.processHashSet, "
             "read, not modelled); chain.findAncestor/getAnchorsNew are modelled and tied through the repository's StubBlockChain copies; "
